@@ -110,6 +110,10 @@ def gen(t, tier):
     if sc['coverage'] and t.chance(0.4):
         # upper/right edges just beyond a tile border of a coarse level (resolved against the grid at run time)
         sc['coverage'] = ['edge', t.choice(1000), t.choice(1000), t.choice(1000), t.choice(25)]
+    elif sc['coverage'] and t.chance(0.4):
+        # not a rectangle: a polygon (triangle / L-shape that reaches all four borders of the grid) or two separate
+        # boxes in opposite corners - their bounding box spans the grid, their area does not
+        sc['coverage'] = ['shape', t.pick(['triangle', 'lshape', 'corners', 'corners2']), t.choice(1000)]
     return sc
 
 
@@ -249,11 +253,41 @@ def run(sc, tape):
                    min(gbb[2], bx + offs[s3 % 5]), min(gbb[3], by + offs[(s3 // 5) % 5])]
             if not (cov[2] - cov[0] > 4 * rf and cov[3] - cov[1] > 4 * rf):
                 cov = [gbb[0], gbb[1], (gbb[0] + gbb[2]) / 2.0, (gbb[1] + gbb[3]) / 2.0]
-        elif sc['coverage']:
+        elif sc['coverage'] and sc['coverage'][0] != 'shape':
             fx0, fy0, fx1, fy1 = sc['coverage']
             cov = [gbb[0] + fx0 * (gbb[2] - gbb[0]), gbb[1] + fy0 * (gbb[3] - gbb[1]),
                    gbb[0] + fx1 * (gbb[2] - gbb[0]), gbb[1] + fy1 * (gbb[3] - gbb[1])]
-        result['cov'] = cov
+        geom = None
+        cov_files = {}
+        cov_confs = None
+        if sc['coverage'] and sc['coverage'][0] == 'shape':
+            from shapely.geometry import box as sbox, Polygon
+            from shapely.ops import unary_union
+            _, kind, s0 = sc['coverage']
+            gw, gh = gbb[2] - gbb[0], gbb[3] - gbb[1]
+            f = 0.3 + (s0 % 40) / 100.0
+            if kind == 'triangle':
+                geom = Polygon([(gbb[0], gbb[1]), (gbb[2], gbb[1]), (gbb[0], gbb[3])])
+                cov_confs = {'cov': {'datasource': '/simfs/conf/cov.txt', 'srs': 'EPSG:3857'}}
+                cov_files['/simfs/conf/cov.txt'] = geom.wkt + '\n'
+            elif kind == 'lshape':
+                geom = Polygon([(gbb[0], gbb[1]), (gbb[2], gbb[1]), (gbb[2], gbb[1] + f * gh), (gbb[0] + f * gw, gbb[1] + f * gh),
+                                (gbb[0] + f * gw, gbb[3]), (gbb[0], gbb[3])])
+                cov_confs = {'cov': {'datasource': '/simfs/conf/cov.txt', 'srs': 'EPSG:3857'}}
+                cov_files['/simfs/conf/cov.txt'] = geom.wkt + '\n'
+            else:
+                b1 = [gbb[0], gbb[1], gbb[0] + f * gw * 0.5, gbb[1] + f * gh * 0.5]
+                b2 = [gbb[2] - f * gw * 0.5, gbb[3] - f * gh * 0.5, gbb[2], gbb[3]]
+                if kind == 'corners2':
+                    b1[2] += 1000.0
+                    b2[0] -= 1000.0
+                geom = unary_union([sbox(*b1), sbox(*b2)])
+                cov_confs = {'cov': {'bbox': b1, 'srs': 'EPSG:3857'}, 'cov2': {'bbox': b2, 'srs': 'EPSG:3857'}}
+            cov = list(geom.bounds)
+        elif cov:
+            from shapely.geometry import box as sbox
+            geom = sbox(*cov)
+        result['cov'] = cov if geom is None or sc['coverage'][0] != 'shape' else sc['coverage']
         tiles = []
         for item in sc['tiles']:
             (fx, fy, z), dt = item[0], item[1]
@@ -316,7 +350,15 @@ def run(sc, tape):
             cconf['remove_before'] = {'mtime': '/simfs/trigger/t.txt'}
             T = tk + sc['delta']
         seed_conf = {'cleanups': {'cl': cconf}}
-        if cov:
+        if cov_confs:
+            if not w.fs.exists('/simfs/conf'):
+                os.makedirs('/simfs/conf')
+            for pth, text in cov_files.items():
+                with open(pth, 'w') as f_:
+                    f_.write(text)
+            seed_conf['coverages'] = cov_confs
+            cconf['coverages'] = sorted(cov_confs)
+        elif cov:
             seed_conf['coverages'] = {'cov': {'bbox': cov, 'srs': 'EPSG:3857'}}
             cconf['coverages'] = ['cov']
         t_conf0 = clock.now
@@ -353,6 +395,7 @@ def run(sc, tape):
             sel = set(sc['levels'])
         else:
             sel = set(range(sc['levels']['from'], sc['levels']['to'] + 1))
+        from shapely.geometry import box as sbox
         fresh_cache = [tmx for _, _, tmx in F.make_app(conf)[1].caches['c1'].caches()][0].cache
         n_removed = n_kept = 0
         for coord in sorted(times_of):
@@ -371,15 +414,17 @@ def run(sc, tape):
                 else:
                     age = '?'
                 if cov:
-                    ow, oh = _overlap_area(_tile_bbox(coord, sc['meta_size'], grid), cov)
+                    tb = _tile_bbox(coord, sc['meta_size'], grid)
                     # mapproxy's grid arithmetic works with a sub-pixel tolerance: overlaps (or gaps) thinner than one
                     # pixel of that level are neither demanded nor forbidden
                     eps = grid.resolutions[coord[2]]
                     # removal is demanded once the coverage reaches a pixel of the finest selected level into the meta tile
                     eps_in = grid.resolutions[min(max(sel), nlev - 1)] if sel else eps
-                    if ow > eps_in and oh > eps_in:
+                    inner = (tb[0] + eps_in, tb[1] + eps_in, tb[2] - eps_in, tb[3] - eps_in)
+                    outer = sbox(tb[0] - eps, tb[1] - eps, tb[2] + eps, tb[3] + eps)
+                    if inner[2] > inner[0] and inner[3] > inner[1] and geom.intersects(sbox(*inner)):
                         covc = 'in'
-                    elif ow < -eps or oh < -eps:
+                    elif not geom.intersects(outer):
                         covc = 'out'
                     else:
                         covc = '?'
